@@ -178,7 +178,7 @@ def init (cfg : Cfg) : St := { cfg }
 def faultOps (k : Nat) (f : String) : List Op :=
   let f := if f.startsWith "pre:" then (f.drop 4).toString else f
   match f with
-  | "rst" | "close" => [.conn k, .close k]
+  | "rst" | "close" | "bound" | "bound8" | "boundgone" | "zero" => [.conn k, .close k]
   | "garbage" | "tlshalf" => [.conn k, .send k .garbage, .close k]
   | "half" => [.conn k, .send k .half, .close k]
   | "stall" => [.conn k]
